@@ -7,8 +7,10 @@
   * `cfg.fixed = true` is THE MODEL OF THE CURRENT TREE for the ensemble tasks (since /repo 9ef1bcb the orchestrator
     monitors them; `Kopf/Tie/C20.lean` re-checks that against the source on every run); `cfg.fixed = false` is the
     historical variant without the edge "failed ensemble task → orchestrator".
-  * `cfg.coreWatched = false` is THE MODEL OF THE CURRENT TREE for the core task (finding C20-F6: nobody awaits the
-    credentials retriever); `cfg.coreWatched = true` is the variant of the proposed repair (/tmp/fix-C20core.diff).
+  * `cfg.coreWatched = true` is THE MODEL OF THE CURRENT TREE for the core task (since /repo ed52a1a the stop-flag
+    checker — a root task — also awaits the core tasks and their errors are re-raised after the cleanup activity;
+    `Kopf/Tie/C20.lean` re-checks that against the source on every run); `cfg.coreWatched = false` is the historical
+    variant in which nobody awaited the credentials retriever (finding C20-F6).
   * Cooperativity (tasks honour cancellation at once, waits end when their condition holds, the timed waits E, W, D,
     C, H are kept) is NOT built into the transition relation: `delay` is always enabled; a run is cooperative iff all
     its delays satisfy `coopDelay` (`runC`, `ReachC`). Theorems about time say so in their hypotheses.
@@ -392,12 +394,14 @@ def cfgHistorical : Cfg := { fixed := false, coreWatched := false, E := 128, W :
 /-- THE CURRENT TREE: what `Kopf/Tie/C20.lean` proves equal to the facts extracted from the source. -/
 def cfgHead : Cfg := headCfg 128 264 64 32 320
 
-/-- the tree as long as nobody awaits the core task (= `cfgHead` while `headWatchesCore = false`, which
-    `Tie.watches_core_eq` re-checks against the source on every run): the subject of finding C20-F6 -/
+/-- HISTORICAL: the tree BEFORE /repo ed52a1a, when nobody awaited the core task (finding C20-F6) -/
 def cfgCoreUnwatched : Cfg := { cfgHead with coreWatched := false }
 
-/-- the tree with the proposed repair of C20-F6 (/tmp/fix-C20core.diff): a root task awaits the core tasks -/
+/-- the tree with the repair of C20-F6 (/repo ed52a1a) — equal to `cfgHead` (`cfgProposed_eq_head`); the name is kept
+    from the time when the repair was a proposal -/
 def cfgProposed : Cfg := { cfgHead with coreWatched := true }
+
+theorem cfgProposed_eq_head : cfgProposed = cfgHead := rfl
 
 /-- startup succeeds, every guarded task and the core task enter -/
 def startAll : List Label :=
@@ -519,16 +523,17 @@ theorem gone_is_not_a_failure {cfg : Cfg} {s s' : State} (i : Nat) (hg : s.gone 
     · cases h
   · cases h
 
-/-! ### The core task (credentials retriever): finding C20-F6 -/
+/-! ### The core task (credentials retriever): finding C20-F6, repaired by /repo ed52a1a -/
 
 /-- … the core task fails (the login handlers fail for good: `ActivityError`) -/
 def coreFail : List Label := startAll ++ [.coreEnd .failed]
 
-/-- WITNESS about the CURRENT tree (`cfgHead`, finding C20-F6): after the core task has failed, ANY amount of time can
-    pass cooperatively with the operator still waiting — every root task alive, nothing cancelled, no outcome, and
-    the failure is not even one the code escalates (`tFail = none`). The property's "any root task failing
-    unrecoverably … stops the whole operator" does not hold for this essential task. -/
-theorem core_failure_lingers_witness (n : Nat) (hn : 0 < n) :
+/-- HISTORICAL WITNESS (finding C20-F6, repaired by /repo ed52a1a) — about the OLD code, i.e. the variant
+    `coreWatched := false`, NOT about the current tree: there, after the core task had failed, ANY amount of time could
+    pass cooperatively with the operator still waiting — every root task alive, nothing cancelled, no outcome, and the
+    failure was not even one the code escalated (`tFail = none`). Kept to show that the hypothesis
+    `cfg.coreWatched = true` of `core_failure_stops_all` is not decorative. -/
+theorem historical_core_failure_lingers_witness (n : Nat) (hn : 0 < n) :
     ∃ s, runC cfgCoreUnwatched init (coreFail ++ [.delay n]) = some s
       ∧ s.core = .failed ∧ s.rt = .waiting ∧ s.result = none ∧ s.now = n ∧ s.tFail = none
       ∧ (∀ r, (s.st (.root r)).live = true) ∧ (∀ r, s.creq (.root r) = false) := by
@@ -552,15 +557,17 @@ def coreFailEnd : List Label := coreFail ++
    .rootEnd .daemonKiller .cancelled, .scWaitRootsEnd, .scStopCore, .scCoreStopped,
    .rootEnd .startupCleanup .failed, .rtHungWait, .rtStopHung, .rtExit .raised]
 
-/-- WITNESS about the CURRENT tree, second half of C20-F6: when such an operator is finally stopped (here by its stop
-    flag), the core task's error is re-raised BEFORE the cleanup activity — the cleanup handlers never run. -/
-theorem core_failure_skips_cleanup_witness :
+/-- HISTORICAL WITNESS, second half of C20-F6 (OLD code, variant `coreWatched := false`): when such an operator was
+    finally stopped (here by its stop flag), the core task's error was re-raised BEFORE the cleanup activity — the
+    cleanup handlers never ran. Shows that the last conjunct of `core_failure_stops_all` needs its hypothesis. -/
+theorem historical_core_failure_skips_cleanup_witness :
     ∃ s, runC cfgCoreUnwatched init coreFailEnd = some s ∧ s.rt = .exited ∧ s.result = some .raised
       ∧ s.cleanupBegun = false ∧ s.t0 = some 640 :=
   ⟨_, rfl, by decide, by decide, by decide, by decide⟩
 
-/-- THE CLAIM for the variant `coreWatched` (the proposed repair): a failed core task makes the core tasks watcher
-    — a ROOT task — fail at once: while that watcher runs no cooperative time passes and its failing is enabled; it can
+/-- THE CLAIM for the current tree (`cfg.coreWatched = true`, tie-checked; `cfgHead` satisfies it by `rfl`): a failed
+    core task makes the root task that awaits the core tasks (`coreWatcher`: in the code the stop-flag checker)
+    fail at once: while that watcher runs no cooperative time passes and its failing is enabled; it can
     end only FAILED (or cancelled, when a stop is already under way); if it is not running any more, a root task
     has already ended (`Triggered`). Either way everything is stopped (`root_failure_stops_all`), the run call returns
     (`returns`) and raises; and the cleanup activity is NOT skipped: the error is re-raised after it. -/
@@ -730,13 +737,15 @@ example : ∃ s, runC cfgHead init lingerPrefix = some s
     ∧ s.orchErr = true ∧ urgent cfgHead s = true ∧ s.tFail = some 0 ∧ s.failWho = some (.sub 0) :=
   ⟨_, rfl, by decide, by decide, by decide, by decide, by decide, by decide, by decide⟩
 
-/-- the proposed repair on the witness prefix of C20-F6 (hypotheses of `core_failure_stops_all`): cooperative time
-    cannot pass, the core tasks watcher fails, the cleanup runs, the error is re-raised -/
-example : ∃ s, runC cfgProposed init coreFail = some s ∧ s.core = .failed
-    ∧ s.st (.root .coreWatcher) = .running ∧ urgent cfgProposed s = true ∧ s.tFail = some 0 :=
+/-- the current tree on the witness prefix of C20-F6 (hypotheses of `core_failure_stops_all`): cooperative time
+    cannot pass, the task awaiting the core tasks fails, the cleanup runs, the error is re-raised -/
+example : cfgHead.coreWatched = true := rfl
+
+example : ∃ s, runC cfgHead init coreFail = some s ∧ s.core = .failed
+    ∧ s.st (.root .coreWatcher) = .running ∧ urgent cfgHead s = true ∧ s.tFail = some 0 :=
   ⟨_, rfl, by decide, by decide, by decide, by decide⟩
 
-example : ∃ s, runC cfgProposed init (coreFail ++
+example : ∃ s, runC cfgHead init (coreFail ++
     [.rootEnd .coreWatcher .failed, .rtStopRoots, .rootEnd .stopFlag .done,
      .rootEnd .ultimate .done, .scWake, .rootEnd .poster .cancelled, .rootEnd .admChain .cancelled,
      .rootEnd .admValidating .cancelled, .rootEnd .admMutating .cancelled, .rootEnd .admServer .cancelled,
